@@ -42,7 +42,7 @@ def check(ctx, recs):
         g, out, pr = r.game, r.out, r.pruned
         rew = out[2]
         res = bellman_residual(g, pr, rew)
-        if res > 1e-6 * (1 + max(rew)) + 1e-9:
+        if res > 1e-6 * (1 + 1e-6) + 1e-12 * (1 + max(rew)):      # theorem C02_bellman_consistent: absolute, not relative
             ctx.violation("reported rewards are not Bellman-consistent on the conditioned game: residual %g" % res, r.inp(), rewards=rew)
         guard = sc.guard_of(g, r.meta)
         if guard == "any" or budget <= 0:
